@@ -73,6 +73,9 @@ def judge(case, wd, sh):
     def check(rel, got_run, expected, what):
         sh.count('relations-checked')
         sh.evaluations += 1
+        if got_run.error and got_run.error['type'].startswith('Harness'):
+            sh.inconclusive.append('follow-up run %s: %s' % (rel, got_run.error['msg']))
+            return
         if got_run.error:
             sh.violation('relation-%s:run-aborts' % rel, '%s: follow-up run aborted: %s' % (what, got_run.error['msg']), slim(rel))
             return
